@@ -21,6 +21,9 @@ def runLoadSeqCase (c : Json) : Json × Json :=
     | "write" => some (.write (jstr o "name") (jstr o "content"))
     | "break" => some (.break_ (jstr o "name"))
     | "remove" => some (.remove (jstr o "name"))
+    -- manifest.json (asset rewrites) is read by LoadTemplates, but whatever it holds - valid, truncated, absent - has no bearing on
+    -- the template set: in the model it is not a template file (removing a name that does not exist changes nothing)
+    | "manifest" => some (.remove "\x00manifest.json")
     | _ => none
   let rs := (lrun s ops).map fun r => match r with
     | .done => (match r with | _ => "done")
